@@ -11,6 +11,7 @@ expression or the 'unidentifiable' refusal is a violation; every term must be si
 from __future__ import annotations
 
 from functools import lru_cache
+import itertools as itt
 
 from ..ctf import events2, base_assignments, event_from_json, event_json, event_value_env, events, ground_items, to_event
 from ..fscm import FSCM, FWorld
